@@ -30,18 +30,31 @@ pub fn state_of(g: &dyn Gen) -> Result<BitVec, String> {
     Ok(BitVec::from_bytes(img.len() * 8, &img))
 }
 
-/// Build a generator in the given state: through `from_seed` for non-zero states (the API path),
-/// through deserialisation of the image for the all-zero state (which `from_seed` remaps).
+/// Build a generator *in the given state*. C06/C07/C01-engine quantify over states, not seeds, so
+/// the state is injected verbatim: through `from_seed` when that yields exactly this state image
+/// (the ordinary case for non-zero states), else through deserialisation of the image (the all-zero
+/// state, which `from_seed` remaps by design - and any state for which a seeding defect, which is
+/// C01/C08's business, does not use the seed verbatim). Fails if neither route produces the state.
 pub fn make_state(ty: &dyn GenType, s: &BitVec) -> Result<Box<dyn Gen>, String> {
     let bytes = s.to_bytes();
-    if s.is_zero() {
-        match ty.de(&bytes) {
-            Some(Ok(g)) => Ok(g),
-            Some(Err(e)) => Err(format!("cannot deserialise the zero image: {}", e)),
-            None => Err("no serde".into()),
+    if !s.is_zero() {
+        if let Ok(g) = guarded(|| ty.from_seed(&bytes)) {
+            if g.ser().as_deref() == Some(&bytes[..]) {
+                return Ok(g);
+            }
         }
-    } else {
-        guarded(|| ty.from_seed(&bytes)).map_err(|o| format!("from_seed panicked: {:?}", o))
+    }
+    match guarded(|| ty.de(&bytes)) {
+        Ok(Some(Ok(g))) => {
+            if g.ser().as_deref() == Some(&bytes[..]) {
+                Ok(g)
+            } else {
+                Err("cannot inject the state: neither from_seed nor deserialisation reproduces the image".into())
+            }
+        }
+        Ok(Some(Err(e))) => Err(format!("cannot deserialise the state image: {}", e)),
+        Ok(None) => Err("no serde".into()),
+        Err(o) => Err(format!("deserialisation panicked: {:?}", o)),
     }
 }
 
@@ -86,14 +99,10 @@ pub fn extract(ty: &dyn GenType, op: LinOp) -> Result<Extracted, String> {
         .into_par_iter()
         .map(|i| {
             let e = BitVec::unit(n, i);
-            // validate the image mechanism on this state: from_seed(image(g)) == g
+            // validate the image mechanism on this state: the injected state reads back as itself
             let g = make_state(ty, &e)?;
-            let img = state_of(g.as_ref())?;
-            if !img.is_zero() {
-                let g2 = ty.from_seed(&img.to_bytes());
-                if g.eq_dyn(g2.as_ref()) != Some(true) {
-                    return Err(format!("state image of basis state {} does not rebuild an equal generator", i));
-                }
+            if state_of(g.as_ref())? != e {
+                return Err(format!("state image of basis state {} does not read back", i));
             }
             let mut y = image(ty, op, &e)?;
             y.xor_assign(&c);
